@@ -1,5 +1,6 @@
 // Driver for native witness search / replay (compiled against a scratch copy of /repo).
 // usage: verif-native <oracle> [args...]   prints `VERIF-RESULT {json}` lines.
+include!("/verif/native/gsd_oracles.rs");
 fn main() {
     let args: Vec<String> = std::env::args().collect();
     if args.len() < 2 {
@@ -13,6 +14,8 @@ fn main() {
         "c10_decode" => profirust::fdl::__verif_native_telegram::c10_decode(&rest, seed),
         "c10_first_byte" => profirust::fdl::__verif_native_telegram::c10_first_byte(&rest, seed),
         "c09_roundtrip" => profirust::fdl::__verif_native_telegram::c09_roundtrip(&rest, seed),
+        "c20_write" => gsd_oracles::c20_write(&rest, seed),
+        "c20_builder" => gsd_oracles::c20_builder(&rest, seed),
         other => {
             eprintln!("unknown oracle {other}");
             std::process::exit(2);
